@@ -199,6 +199,41 @@ func prefixEval(cases []Case, d *common.Driver, o *common.Options, rep *common.R
 					return
 				}
 			}
+			// longest-prefix semantics of the real table, and the union the router builds from several sets
+			var other bart.Lite
+			for j, p := range want {
+				if j%2 == 1 {
+					other.Insert(p)
+				}
+			}
+			var union bart.Lite
+			for j, p := range want {
+				if j%2 == 0 {
+					union.Insert(p)
+				}
+			}
+			union.Union(&other)
+			for _, a := range addrs {
+				best, found := netip.Prefix{}, false
+				for _, p := range want {
+					if p.Contains(a) && (!found || p.Bits() > best.Bits()) {
+						best, found = p, true
+					}
+				}
+				lpm, ok := s.LookupPrefixLPM(netip.PrefixFrom(a, a.BitLen()))
+				if ok != found || (ok && lpm != best) {
+					fail("longest-prefix-mismatch", "LookupPrefixLPM(%s)=(%v,%v), brute force longest prefix (%v,%v)", a, lpm, ok, best, found)
+					return
+				}
+				if s.Lookup(a) != found {
+					fail("lookup-mismatch", "Lookup(%s)=%v, brute force %v", a, s.Lookup(a), found)
+					return
+				}
+				if union.Contains(a) != found {
+					fail("union-mismatch", "union of the two halves: Contains(%s)=%v, brute force %v", a, union.Contains(a), found)
+					return
+				}
+			}
 			// write out (both writers) and reload
 			t1 := string(prefixset.PrefixSetToText(s))
 			var buf bytes.Buffer
